@@ -1310,7 +1310,7 @@ Theorem generic_decided_run_frozen evs1 evs2 st1 st2 x :
     exists t2 m, nth_error (trials st2) i = Some t2 /\ runs_of t2 = runs_of t1 ++ m.
 Proof.
   intros G1 G2 F1 F2 i t1 Hi N.
-  assert (S1 : SI (trials st1)) by (eapply run_SI; eauto; apply init_SI).
+  assert (S1 : SI (trials st1)) by (exact (run_SI evs1 init st1 None init_SI G1 F1)).
   destruct (run_keeps_generic _ _ _ _ S1 G2 F2 i t1 Hi) as (t2 & Hi2 & K).
   destruct (keeps_runs _ _ K N) as (m & Hm). eauto.
 Qed.
@@ -1340,7 +1340,32 @@ Theorem sim_decided_run_frozen evs1 evs2 st1 st2 x :
     exists t2 m, nth_error (trials st2) i = Some t2 /\ runs_of t2 = runs_of t1 ++ m.
 Proof.
   intros G1 F1 G2 F2 i t1 Hi N.
-  assert (S1 : SSI (trials st1)) by (eapply run_SSI; eauto; apply init_SSI).
+  assert (S1 : SSI (trials st1)) by (exact (run_SSI evs1 init st1 None init_SSI G1 F1)).
   destruct (run_keeps_sim _ _ _ _ S1 G2 F2 i t1 Hi) as (t2 & Hi2 & K).
   destruct (keeps_runs _ _ K N) as (m & Hm). eauto.
+Qed.
+
+(* ---- the boolean discipline check of the model implies the coverage hypothesis ---------------- *)
+Lemma live_ids_in ts : forall k j t, nth_error ts j = Some t -> fin t = Live -> In (k + j) (live_ids ts k).
+Proof.
+  induction ts as [|a ts IH]; intros k [|j] t Hj Hl; simpl in *; try discriminate.
+  - inversion Hj; subst. rewrite Hl. left. lia.
+  - replace (k + S j) with (S k + j) by lia.
+    destruct (fin a); [right|idtac|idtac|idtac]; eapply IH; eauto.
+Qed.
+
+Lemma disc_cov st e : disc_ok st e = true -> cov_ev st e.
+Proof.
+  unfold disc_ok, cov_ev. destruct e; intros H; try (split; [exact H|exact I]); try discriminate.
+  split; [reflexivity|]. intros j t Hj Hl.
+  unfold same_set_nat in H. apply andb_true_iff in H. destruct H as (H & _).
+  apply andb_true_iff in H. destruct H as (_ & H). rewrite forallb_forall in H.
+  apply mem_nat_In. apply H. apply (live_ids_in _ 0 j t Hj Hl).
+Qed.
+
+Lemma run_disc_cov evs : forall st, run_disc Sim st evs = true -> run_cov st evs.
+Proof.
+  induction evs as [|e r IH]; intros st H; simpl in *; auto.
+  apply andb_true_iff in H. destruct H as (H1 & H2). split; [apply disc_cov; auto|].
+  destruct (step Sim st e) as [st1 [y|]]; auto.
 Qed.
